@@ -63,10 +63,12 @@ def run(chk):
     chk.info["tainted_variables"] = len(t.vars)
     chk.floor("tainted variables", len(t.vars), 15)
     # the rows handed to FrameData must be known to alias caller data (fast path) - otherwise the engine is blind
-    need = {("FrameData", "_slots"), ("MultiFrameData", "_data_item_generator")}
-    missing = need - t.fields
+    # (by role, not by field name: some field of FrameData and some field of MultiFrameData must be tainted)
+    need = {"FrameData", "MultiFrameData"}
+    missing = need - {c for c, f in t.fields}
     if missing:
-        raise AnalysisError(f"taint does not reach {sorted(missing)}: propagation through the chunk generator is broken")
+        raise AnalysisError(f"taint does not reach any field of {sorted(missing)}: propagation through the chunk "
+                            f"generator is broken")
     sinks = t.sinks()
     for f, n, desc in sinks:
         chk.fail("R19.1" if "dict" not in desc else "R19.2", f"sink:{f.short}:{norm(n)[:60]}",
